@@ -61,6 +61,7 @@ import (
 	"github.com/spf13/afero"
 	phttpimport "github.com/yandex/pandora/components/phttp/import"
 	"github.com/yandex/pandora/core"
+	"github.com/yandex/pandora/core/aggregator/netsample"
 	"github.com/yandex/pandora/core/config"
 	coreimport "github.com/yandex/pandora/core/import"
 	"go.uber.org/zap"
@@ -513,17 +514,66 @@ func (t *target) Close() {
 	}
 }
 
-type nullAggregator struct{}
+// errAggregator remembers whether a shot failed for a reason that is the machine's, not the code's (ephemeral ports
+// or descriptors exhausted, a handshake that timed out on a loaded machine): such a case is run again, and reported as
+// ENV (skipped by the model driver) when it keeps happening.
+type errAggregator struct {
+	mu  sync.Mutex
+	env string
+}
 
-func (nullAggregator) Run(ctx context.Context, deps core.AggregatorDeps) error { return nil }
-func (nullAggregator) Report(s core.Sample)                                    {}
+var envErrors = []string{"cannot assign requested address", "too many open files", "i/o timeout", "handshake timeout",
+	"context deadline exceeded", "no buffer space", "connection timed out", "Timeout exceeded"}
+
+func (a *errAggregator) Run(ctx context.Context, deps core.AggregatorDeps) error { return nil }
+func (a *errAggregator) Report(s core.Sample) {
+	ns, ok := s.(*netsample.Sample)
+	if !ok || ns.Err() == nil {
+		return
+	}
+	msg := ns.Err().Error()
+	for _, e := range envErrors {
+		if strings.Contains(msg, e) {
+			a.mu.Lock()
+			a.env = strings.ReplaceAll(e, " ", "-")
+			a.mu.Unlock()
+		}
+	}
+}
 
 // ---------------------------------------------------------------- one case
 
 var dropAlways = map[string]bool{"Content-Length": true, "Transfer-Encoding": true, "Connection": true}
 
 func runCase(input string) string {
+	obs, env := "", ""
+	for attempt := 0; attempt < 3; attempt++ {
+		if obs, env = runOnce(input); env == "" {
+			return obs
+		}
+		time.Sleep(time.Duration(200*(attempt+1)) * time.Millisecond)
+	}
+	return "ENV " + env
+}
+
+func runOnce(input string) (string, string) {
+	o, env := runOnce1(input)
+	return o, env
+}
+
+func runOnce1(input string) (obsOut string, envOut string) {
 	setup()
+	agg := &errAggregator{}
+	defer func() {
+		agg.mu.Lock()
+		envOut = agg.env
+		agg.mu.Unlock()
+	}()
+	obsOut = runWith(input, agg)
+	return
+}
+
+func runWith(input string, agg *errAggregator) string {
 	c, err := parseCase(input)
 	if err != nil {
 		return "BAD-INPUT " + err.Error()
@@ -561,7 +611,9 @@ func runCase(input string) string {
 	if c.preload {
 		ammoCfg["preload"] = true
 	}
-	gunCfg := map[string]any{"type": c.gun, "target": targetAddr, "ssl": c.ssl}
+	// generous timeouts (not part of the property): a TLS handshake may take long on a loaded machine
+	gunCfg := map[string]any{"type": c.gun, "target": targetAddr, "ssl": c.ssl, "tls-handshake-timeout": "20s",
+		"dial": map[string]any{"timeout": "20s"}}
 	if !c.ka {
 		gunCfg["disable-keep-alives"] = true
 	}
@@ -588,7 +640,7 @@ func runCase(input string) string {
 		if err != nil {
 			return "construct-err gun"
 		}
-		if err := g.Bind(nullAggregator{}, core.GunDeps{Ctx: ctx, Log: nop, PoolID: "c09", InstanceID: i}); err != nil {
+		if err := g.Bind(agg, core.GunDeps{Ctx: ctx, Log: nop, PoolID: "c09", InstanceID: i}); err != nil {
 			return "construct-err bind"
 		}
 		guns[i] = g
@@ -661,6 +713,9 @@ func runCase(input string) string {
 	case <-time.After(5 * time.Second):
 		run = "hang"
 	}
+	// the target hangs up first: the TIME_WAIT state then lies with the target's port, not with the ephemeral ports of
+	// the guns (tens of thousands of cases would exhaust them)
+	tg.srv.CloseClientConnections()
 	for _, g := range guns {
 		if cl, ok := g.(io.Closer); ok {
 			_ = cl.Close()
